@@ -165,11 +165,68 @@ def lemmas():
             ("L8.unique.length", base + [agree_all], n == m, {})]
 
 
+def _ref_ports(op, items):
+    """the statement of C08 in plain Python: the ports of `op items` within 1..65535"""
+    if op == "eq":
+        return sorted(p for p in items if 1 <= p <= 65535)
+    if op == "neq":
+        return [p for p in range(1, 65536) if p not in items]
+    if op == "gt":
+        return list(range(max(items[0] + 1, 1), 65536))
+    if op == "lt":
+        return list(range(1, min(items[0], 65536)))
+    return list(range(max(min(items), 1), min(max(items), 65535) + 1))
+
+
+def replay_items_to_ports(model, ob):
+    """run the real Port._items_to_ports at the solver's counterexample (operator and operands of the model)"""
+    import cisco_acl
+    op = str(model.get("self._operator", "")).strip('"')
+    n = int(model.get("items.len", 0))
+    items = [int(model.get(f"items[{k}]", 0)) for k in range(n)]
+    if op not in ("eq", "neq", "gt", "lt", "range") or not items:
+        return None
+    port = cisco_acl.Port("", protocol="tcp")
+    port._operator = op
+    got = port._items_to_ports(list(items))
+    want = _ref_ports(op, items)
+    if got == want:
+        return dict(violates=False)
+    diff = sorted(set(got) ^ set(want))
+    cmd = ("import sys, cisco_acl\n"
+           f"p = cisco_acl.Port('', protocol='tcp'); p._operator = {op!r}; got = p._items_to_ports({items!r})\n"
+           f"sys.path.insert(0, 'props'); import C08; want = C08._ref_ports({op!r}, {items!r})\n"
+           "print(len(got), len(want), sorted(set(got) ^ set(want))[:5]); sys.exit(0 if got == want else 1)\n")
+    return dict(violates=True, inputs=dict(operator=op, operands=items), observed=f"{len(got)} ports, e.g. differing {diff[:5]}", expected=f"{len(want)} ports", cmd=cmd,
+                what=f"Port._items_to_ports for `{op} {' '.join(map(str, items))}` returns {len(got)} ports, Cisco's definition within 1..65535 gives {len(want)} "
+                     f"(first differences {diff[:5]})", key=ob.oid.split("#")[0])
+
+
+def _operand_zero(arg):
+    """operand 0 (accepted by the line parser) for the operators that range over 1..65535: the port list is Cisco's set within 1..65535"""
+    import cisco_acl
+    op, platform = arg
+    try:
+        got = cisco_acl.Port(f"{op} 0", protocol="tcp", platform=platform).ports
+    except ValueError:
+        return [], 0
+    want = _ref_ports(op, [0])
+    if list(got) != want:
+        return [dict(key=f"bounded/Port.line.fset:{op}:operand-0", what=f"Port('{op} 0', platform={platform!r}).ports has {len(got)} ports, Cisco's definition within 1..65535 gives {len(want)}",
+                     inputs=dict(line=f"{op} 0", platform=platform),
+                     cmd=("import sys; sys.path.insert(0, 'props'); import C08\n"
+                          f"fails, _ = C08._operand_zero({arg!r})\nprint([f['what'] for f in fails]); sys.exit(1 if fails else 0)\n"))], 1
+    return [], 1
+
+
 def main(chk):
     chk.prove(["c_port", "c_codec", "c_port_text"])
     chk.lemmas(lemmas())
+    from pyvc import contract as C_
+    C_.REGISTRY["cisco_acl.port.Port._items_to_ports"].replay = replay_items_to_ports
     chk.replay_refuted()
     for name, fn, cases, bound in [
+        ("Port('lt 0' / 'gt 0' / 'neq 0'): meaning only", _operand_zero, [(op, pl) for op in ("lt", "gt", "neq") for pl in ("ios", "nxos", "asa")], "3 operators x 3 platforms"),
         ("Port(line) semantics + self-assignment histories through items/ports/sport", _semantics_and_views, operand_cases(chk.tier),
          "5 operators x boundary operands (eq/neq with 1..3 and 10 operands, both operand orders for range) x all view histories of length <= 2"),
         ("range-string codec (helpers.ports_to_string / string_to_ports)", _codec, codec_cases(chk.tier),
